@@ -197,8 +197,9 @@ func (c *ConsState) ClosedByLal() bool {
 }
 
 type RelayRun struct {
-	W    *World
-	Plan RelayPlan
+	OpsEndMs int64 // simulated time at which the scripted operations were over (set by checks that need it)
+	W        *World
+	Plan     RelayPlan
 	// PushCons: one pseudo-consumer per connection lal made to a relay-push target
 	PushCons []*ConsState
 	Pubs     []*PubState
